@@ -10,6 +10,12 @@ import (
 	"testing"
 )
 
+type c16kept struct {
+	o    *Bits
+	snap string
+	n    int
+}
+
 func TestGovcBounded_C16(t *testing.T) {
 	cases, fails := 0, 0
 	fail := func(f string, a ...interface{}) {
@@ -82,7 +88,7 @@ func TestGovcBounded_C16(t *testing.T) {
 			guard(fmt.Sprint(seq), func() {
 				var b Bits
 				model := map[uint]bool{}
-				var kept [][2]*Bits
+				var kept []c16kept
 				for _, o := range seq {
 					switch o.kind {
 					case 0:
@@ -128,7 +134,7 @@ func TestGovcBounded_C16(t *testing.T) {
 							fail("%v: the other operand was modified", seq)
 						}
 						// the operand must also stay untouched by everything done to the receiver LATER (no shared storage)
-						kept = append(kept, [2]*Bits{&o2, &before})
+						kept = append(kept, c16kept{&o2, fmt.Sprint(before.set), o2.Len()})
 					case 5:
 						c := b.Cap()
 						b.Grow(uint(o.arg))
@@ -137,7 +143,7 @@ func TestGovcBounded_C16(t *testing.T) {
 						}
 					}
 					for _, kp := range kept {
-						if fmt.Sprint(kp[0].set) != fmt.Sprint(kp[1].set) || kp[0].Len() != kp[1].Len() {
+						if fmt.Sprint(kp.o.set) != kp.snap || kp.o.Len() != kp.n {
 							fail("%v: an operand of an earlier Diff/Intersect/Merge changed when the receiver was modified (shared storage)", seq)
 							return
 						}
